@@ -39,6 +39,7 @@ type Frame struct {
 	barrier   bool        // vfExpectPanic marker frame
 	ghost     bool        // frame entered through vfGhost: atomic, not race tracked
 	symIter   map[int]int // symbolic back-edge counts per block
+	backEdges int
 	unwinding bool
 	result    Value
 	native    string // name of native continuation to run on return ("" if none)
@@ -52,6 +53,7 @@ type Thread struct {
 	parked    bool
 	resumed   bool
 	justResumed bool
+	yield     bool
 	panicking bool
 	panicMsg  string
 	vc        VC
@@ -861,6 +863,15 @@ func (s *State) step(th *Thread) {
 }
 
 func (s *State) jump(fr *Frame, to *ssa.BasicBlock, symbolic bool) {
+	if !symbolic && to.Index <= fr.block.Index && s.cfg != nil && s.cfg.MustTerminate {
+		// loops with concrete conditions are not unrolled symbolically, but where termination is
+		// part of the property a (generous) cap turns an endless one into a finding
+		fr.backEdges++
+		if fr.backEdges > 200000 {
+			s.failAssert("terminates", True, fmt.Sprintf("loop in %s ran 200000 iterations without exiting", fr.fn.Name()))
+			panic(execAbort{"pruned", "non-terminating loop in " + fr.fn.String()})
+		}
+	}
 	if symbolic && to.Index <= fr.block.Index {
 		if fr.symIter == nil {
 			fr.symIter = map[int]int{}
@@ -869,6 +880,7 @@ func (s *State) jump(fr *Frame, to *ssa.BasicBlock, symbolic bool) {
 		if fr.symIter[to.Index] > s.loopBound() {
 			if s.cfg != nil && s.cfg.MustTerminate {
 				s.failAssert("terminates", True, fmt.Sprintf("loop in %s exceeds unwinding bound %d", fr.fn.Name(), s.loopBound()))
+				panic(execAbort{"pruned", "loop bound exceeded where termination is an obligation"})
 			}
 			panic(execAbort{"unwind", fmt.Sprintf("loop bound %d exceeded in %s block %d", s.loopBound(), fr.fn, to.Index)})
 		}
